@@ -222,11 +222,29 @@ def inners(p):
         ('unmarshal ContentHeader', lambda: view(p.frame.unmarshal(BUF_HDR))),
         ('refused marshal', lambda: p.frame.marshal(p.commands.Queue.Declare(
             queue='q', arguments={'a': 1, 'bad': 2 ** 64}), 1).hex()),
+        ('switch legacy on; encode integers; switch back',
+         lambda: _with_switch(p, True)),
+        ('switch legacy off; encode integers; switch back',
+         lambda: _with_switch(p, False)),
         ('marshal ContentHeader with over-long header names', lambda:
          p.frame.marshal(p.header.ContentHeader(
              0, 1, p.commands.Basic.Properties(headers={LONG2: 1, 'a': 2})),
              4).hex()),
     ]
+
+
+def _with_switch(p, legacy):
+    """What an application does that talks to an old and a new broker from
+    one thread: select the ladder, encode, put the switch back."""
+    saved = p.encode.DEPRECATED_RABBITMQ_SUPPORT
+    p.encode.support_deprecated_rabbitmq(legacy)
+    try:
+        return [p.encode.field_table({'a': 40000, 'b': [3000000000, 65535],
+                                      'c': {'d': 2 ** 31}}).hex(),
+                p.frame.marshal(p.commands.Queue.Declare(
+                    queue='q', arguments={'n': 40000}), 2).hex()]
+    finally:
+        p.encode.support_deprecated_rabbitmq(saved)
 
 
 def _run(call):
@@ -237,7 +255,18 @@ def _run(call):
 
 
 def explore(ctx, outer_index):
-    """Every (inner, k) for one outer call."""
+    """Every (inner, k) for one outer call, with the legacy switch off and
+    on."""
+    p = lib.pamqp()
+    try:
+        for legacy in (False, True):
+            p.encode.support_deprecated_rabbitmq(legacy)
+            _explore(ctx, outer_index, legacy)
+    finally:
+        p.encode.support_deprecated_rabbitmq(False)
+
+
+def _explore(ctx, outer_index, legacy):
     p = lib.pamqp()
     handler = HookHandler()
     root = logging.getLogger()
@@ -269,7 +298,7 @@ def explore(ctx, outer_index):
                 got_outer = json.loads(json.dumps(_run(outer)))
                 got_inner = json.loads(json.dumps(HOOK.result))
                 HOOK.inner = None
-                ctx.case(('reentrant', outer_index, j, k), True,
+                ctx.case(('reentrant', outer_index, j, k, legacy), True,
                          sample=lambda: {'outer': label, 'inner': ilabel,
                                          'at_callback': k, 'of': points})
                 ctx.calls(2)
@@ -284,7 +313,7 @@ def explore(ctx, outer_index):
                 if bad:
                     ctx.outcome('reentrancy-dependent')
                     ctx.violation(
-                        'reentrant|{}|{}|{}'.format(outer_index, j, k),
+                        'reentrant|{}|{}|{}|{}'.format(outer_index, j, k, legacy),
                         '"{}" with "{}" running nested inside it, on the same '
                         'thread, at the {}-th of the {} points where it runs '
                         'application code: {}'.format(
@@ -318,7 +347,7 @@ def explore(ctx, outer_index):
                 else:
                     HOOK.count = 0
                     want = json.loads(json.dumps(_run(inner)))
-                ctx.case(('deferred', outer_index, j, k), True,
+                ctx.case(('deferred', outer_index, j, k, legacy), True,
                          sample=lambda: {'outer': label,
                                          'deferred_in_copied_context': ilabel,
                                          'context_copied_at_callback': k})
@@ -327,7 +356,7 @@ def explore(ctx, outer_index):
                 if got != want:
                     ctx.outcome('reentrancy-dependent')
                     ctx.violation(
-                        'deferred|{}|{}|{}'.format(outer_index, j, k),
+                        'deferred|{}|{}|{}|{}'.format(outer_index, j, k, legacy),
                         '"{}": the application copied the context at the '
                         '{}-th point where the call runs its code and ran '
                         '"{}" in that copy after the call had returned: {} '
@@ -342,7 +371,7 @@ def explore(ctx, outer_index):
         HOOK.inner, HOOK.count = None, 0
         after = json.loads(json.dumps(_run(outer)))
         if after != base_outer:
-            ctx.violation('reentrant-after|{}'.format(outer_index),
+            ctx.violation('reentrant-after|{}|{}'.format(outer_index, legacy),
                           '"{}" gives {} after the nested runs, {} before'
                           .format(label, _short(after), _short(base_outer)),
                           {'kind': 'reentrant', 'outer': outer_index},
